@@ -380,6 +380,10 @@ func runIntegJob(c *Ctl, job *Job, idx int, res *RunResult) {
 			c.Count("worlds_built_by_config_loader")
 		}
 	}
+	if idx%3 == 1 {
+		// a third of the runs also preempt goroutines at function entries inside taskctl's code
+		prof.PreemptPct, prof.PreemptDepth = 12, 14
+	}
 	res.Sample = map[string]interface{}{"world": w.Summary()}
 	e := RunIntegWorld(c, prof, w, res)
 	if e == nil {
